@@ -10,6 +10,9 @@ import (
 	"encoding/json"
 	"flag"
 	"fmt"
+	"go/ast"
+	"go/parser"
+	"go/token"
 	"os"
 	"os/exec"
 	"path/filepath"
@@ -236,15 +239,27 @@ func runProperty(id, tier string, seed int, reg Registry, only string, workers i
 			}
 			file := line[:i+3]
 			base := filepath.Base(file)
-			if _, isOv := ov[file]; isOv && strings.HasPrefix(base, "zz_vp_") && base != "zz_vp_rt.go" && base != "zz_vp_common.go" {
-				if _, done := dropped[file]; !done {
+			if src, isOv := ov[file]; isOv && strings.HasPrefix(base, "zz_vp_") && base != "zz_vp_rt.go" {
+				// first try to take out only the declaration the error points into
+				// (the other harnesses of the file keep running) ...
+				if patched, what := blankDeclAt(src, line[i+4:]); patched != nil {
+					ov[file] = patched
+					key := file + "#" + what
+					if _, done := dropped[key]; !done {
+						dropped[key] = line
+					}
+					progress = true
+					break // positions in this file have changed meaning: reload
+				}
+				// ... else the whole file
+				if _, done := dropped[file]; !done && base != "zz_vp_common.go" {
 					dropped[file] = line
 					delete(ov, file)
 					progress = true
 				}
 			}
 		}
-		if !progress || attempt > 8 {
+		if !progress || attempt > 40 {
 			fatal(2, "cannot load /repo with harness overlay (does the tree still compile?): %v", err)
 		}
 	}
@@ -856,3 +871,70 @@ func writeEvidence(fileID, id, tier string, seed int, reports []*harnessReport, 
 }
 
 func round3(f float64) float64 { return float64(int64(f*1000+0.5)) / 1000 }
+
+// blankDeclAt parses a harness source and blanks (keeping line numbers) the
+// top-level declaration that contains the position "LINE:COL: message"; an
+// unused import is removed as a single spec. It returns nil if the position
+// cannot be attributed to one declaration.
+func blankDeclAt(src []byte, pos string) ([]byte, string) {
+	var ln int
+	if _, err := fmt.Sscanf(pos, "%d:", &ln); err != nil || ln <= 0 {
+		return nil, ""
+	}
+	fset := token.NewFileSet()
+	f, err := parser.ParseFile(fset, "h.go", src, parser.ParseComments)
+	if err != nil {
+		return nil, ""
+	}
+	blank := func(from, to token.Pos) []byte {
+		a, b := fset.Position(from).Offset, fset.Position(to).Offset
+		out := append([]byte{}, src...)
+		for i := a; i < b && i < len(out); i++ {
+			if out[i] != '\n' {
+				out[i] = ' '
+			}
+		}
+		return out
+	}
+	for _, d := range f.Decls {
+		if fset.Position(d.Pos()).Line > ln || fset.Position(d.End()).Line < ln {
+			continue
+		}
+		switch d := d.(type) {
+		case *ast.FuncDecl:
+			from := d.Pos()
+			if d.Doc != nil {
+				from = d.Doc.Pos()
+			}
+			return blank(from, d.End()), "func " + d.Name.Name
+		case *ast.GenDecl:
+			if d.Tok == token.IMPORT {
+				if len(d.Specs) == 1 {
+					return blank(d.Pos(), d.End()), "import " + d.Specs[0].(*ast.ImportSpec).Path.Value
+				}
+				for _, sp := range d.Specs {
+					if fset.Position(sp.Pos()).Line <= ln && ln <= fset.Position(sp.End()).Line {
+						return blank(sp.Pos(), sp.End()), "import " + sp.(*ast.ImportSpec).Path.Value
+					}
+				}
+				return nil, ""
+			}
+			for _, sp := range d.Specs {
+				if fset.Position(sp.Pos()).Line <= ln && ln <= fset.Position(sp.End()).Line {
+					name := "decl"
+					switch sp := sp.(type) {
+					case *ast.ValueSpec:
+						name = "var " + sp.Names[0].Name
+					case *ast.TypeSpec:
+						name = "type " + sp.Name.Name
+					}
+					if len(d.Specs) == 1 {
+						return blank(d.Pos(), d.End()), name
+					}
+					return blank(sp.Pos(), sp.End()), name
+				}
+			}
+		}
+	}
+	return nil, ""
+}
